@@ -202,7 +202,11 @@ class Interp:
             }),
             "warnings": Obj("module:warnings", {"warn": PyFunc(lambda *a, **k: None, "warn", True)}),
             "re": Obj("module:re", {"match": PyFunc(lambda p, s, *a: re.match(p, s), "re.match"),
-                                    "search": PyFunc(lambda p, s, *a: re.search(p, s), "re.search")}),
+                                    "search": PyFunc(lambda p, s, *a: re.search(p, s), "re.search"),
+                                    "fullmatch": PyFunc(lambda p, s, *a: re.fullmatch(p, s), "re.fullmatch"),
+                                    "split": PyFunc(lambda p, s, *a: re.split(p, s), "re.split"),
+                                    "findall": PyFunc(lambda p, s, *a: re.findall(p, s), "re.findall"),
+                                    "sub": PyFunc(lambda p, r, s, *a: re.sub(p, r, s), "re.sub")}),
             "functools.reduce": PyFunc(self._reduce, "reduce", True),
             "itertools.product": PyFunc(lambda *a, repeat=1: list(__import__("itertools").product(*[list(q) for q in a], repeat=repeat)), "product", True),
             "itertools.chain": PyFunc(lambda *a: [y for q in a for y in q], "chain", True),
